@@ -88,6 +88,13 @@ def scalars_any():
     )
 
 
+# keys k whose public point kG has a coordinate below 2^248 (a leading zero byte in its fixed-width encoding: 1 key in
+# 128 has one); x(kG) is short for the first half, y(kG) for the second half; n - k keeps the short x
+SHORT_X_KEYS = [153, 246, 886, 1158, 1417, 1436, 1661, 1690, 1700, 2176, 2302, 2408]
+SHORT_Y_KEYS = [122, 130, 533, 544, 649, 726, 809, 832, 834, 864, 933, 1025]
+SHORT_COORD_KEYS = SHORT_X_KEYS + SHORT_Y_KEYS + [N - k for k in SHORT_X_KEYS[:4]]
+
+
 def scalars_valid():
     """Private-key-like scalars in [1, n-1], biased to boundaries and leading zero bytes."""
     special = [1, 2, 3, N - 2, N - 1, N // 2, N // 2 + 1, 1 << 255, (1 << 255) - 1, 0xFF, 0x100]
@@ -96,6 +103,7 @@ def scalars_valid():
         st.sampled_from([1, 2, N - 2, N - 1]),  # the ends of the valid range keep their own weight
         st.sampled_from(special),
         st.sampled_from(special),
+        st.sampled_from(SHORT_COORD_KEYS),
         st.integers(1, 31).flatmap(lambda z: st.integers(1, (1 << (8 * (32 - z))) - 1)),
         st.integers(1, N - 1),
     )
